@@ -21,7 +21,9 @@ CONSTANTS HeaderBytes,   \* timestamp + metadata ptr + logger ptr + decoder ptr 
           PtrBytes,
           DTrivSize, DNonSize, DNonAlign, DAllocSize, DAllocAlign,  \* sizeof/alignof of the harness's deferred types
           Threads, MaxStmts, MaxArgs,
-          Pool,          \* set of [ty, val] argument trees (substituted by one of the Pool* operators below)
+          MaxArgsFirst,  \* argument bound of a thread's first statement (its role is to leave a stale cache behind)
+          MaxPending,    \* committed, not yet decoded statements per thread
+          PoolName,      \* which set of [ty, val] argument trees the statements are built from (Pool below)
           DynChoices,    \* subset of BOOLEAN: statement carries a dynamic log level
           Export,        \* TRUE: print every complete behaviour as JSON
           Sim,           \* TRUE: statements are drawn with RandomElement (simulation mode), Pool is ignored
@@ -99,44 +101,56 @@ Nodes(TS, r) == UNION {{[ty |-> T, val |-> v] : v \in Vals(T, r)} : T \in TS}
 
 (* ------------------------------------------------------------------ argument pools (chosen in the cfg) *)
 \* every kind once, node depth <= 2, single statements: the per-type transcription
-PoolDepth2 == Nodes(LeafInAll \cup LeafTopOnly, "full") \cup Nodes(CompOver(LeafInQuick) \cup TupOver({Arith(4), Leaf("cstr"), Leaf("str")}), "red")
+PoolDepth2(u) == Nodes(LeafInAll \cup LeafTopOnly, "full") \cup Nodes(CompOver(LeafInQuick) \cup TupOver({Arith(4), Leaf("cstr"), Leaf("str")}), "red")
 \* cache-using and cache-neutral types side by side: statement pairs on one thread (stale cache, index alignment)
 CacheLeaves == {Arith(4), Leaf("cstr"), Ty("carr", 2, <<>>), Leaf("str"), Leaf("direct")}
-PoolPairs == Nodes(CacheLeaves, "full")
-             \cup Nodes({Ty("vec", 0, <<Leaf("cstr")>>), Ty("flist", 0, <<Leaf("cstr")>>), Ty("flist", 0, <<Arith(4)>>),
-                         Ty("opt", 0, <<Leaf("cstr")>>), Ty("vec", 0, <<Leaf("str")>>), Ty("sv", 0, <<>>),
-                         PairT(Leaf("cstr"), Leaf("direct"))}, "red")
+PoolPairs(u) == Nodes({Arith(4), Leaf("cstr"), Ty("carr", 2, <<>>)}, "full") \cup Nodes({Leaf("str"), Leaf("direct")}, "red")
+                \cup Nodes({Ty("vec", 0, <<Leaf("cstr")>>), Ty("flist", 0, <<Leaf("cstr")>>), Ty("flist", 0, <<Arith(4)>>),
+                            Ty("opt", 0, <<Leaf("cstr")>>)}, "red")
+PoolPairsX(u) == Nodes(CacheLeaves, "full")
+                 \cup Nodes({Ty("vec", 0, <<Leaf("cstr")>>), Ty("flist", 0, <<Leaf("cstr")>>), Ty("flist", 0, <<Arith(4)>>),
+                             Ty("opt", 0, <<Leaf("cstr")>>), Ty("vec", 0, <<Leaf("str")>>), Leaf("sv"),
+                             PairT(Leaf("cstr"), Leaf("direct")), Ty("map", 0, <<Leaf("str"), Leaf("cstr")>>)}, "red")
 \* node depth 3 over a reduced alphabet (thorough)
 L3 == {Arith(4), Leaf("cstr"), Leaf("str"), Leaf("direct"), Leaf("dnon")}
 C3 == {Ty(k, 0, <<T>>) : k \in {"vec", "flist", "opt"}, T \in L3} \cup {PairT(A, B) : A \in {Arith(4), Leaf("cstr")}, B \in L3}
        \cup {Ty("map", 0, <<Leaf("str"), V>>) : V \in L3} \cup {Ty("uset", 0, <<Leaf("str")>>)}
-PoolDepth3 == Nodes({Ty(k, 0, <<T>>) : k \in {"vec", "flist", "opt", "deq"}, T \in C3}
+PoolDepth3(u) == Nodes({Ty(k, 0, <<T>>) : k \in {"vec", "flist", "opt", "deq"}, T \in C3}
                     \cup {PairT(A, B) : A \in C3, B \in {Leaf("cstr")}}
                     \cup {Ty("tup", 0, <<A, B>>) : A \in C3, B \in {Leaf("cstr"), Arith(1)}}
                     \cup {Ty("map", 0, <<Arith(4), V>>) : V \in C3}, "red")
 \* up to CacheCap (+1) variable-length C strings in one statement (C11's quantifier; cfg sets MaxArgs)
-PoolCstr == {[ty |-> Leaf("cstr"), val |-> CStr(FALSE, <<1>>)], [ty |-> Leaf("cstr"), val |-> CStr(FALSE, <<1, 1>>)]}
+PoolCstr(u) == {[ty |-> Leaf("cstr"), val |-> CStr(FALSE, <<1>>)], [ty |-> Leaf("cstr"), val |-> CStr(FALSE, <<1, 1>>)]}
+\* (TLC evaluates zero-argument constant definitions eagerly at start-up: only the selected pool is built)
+Pool == CASE PoolName = "depth2" -> PoolDepth2(0)
+          [] PoolName = "pairs" -> PoolPairs(0)
+          [] PoolName = "pairsx" -> PoolPairsX(0)
+          [] PoolName = "depth3" -> PoolDepth3(0)
+          [] PoolName = "cstr" -> PoolCstr(0)
+          [] PoolName = "none" -> {}
 
 (* ------------------------------------------------------------------ random trees (simulation mode) *)
 \* every RandomElement result is bound by a set constructor before it is used, so it is evaluated once
 One(S) == CHOOSE x \in S : TRUE
 RECURSIVE RTy(_), RSeqV(_, _), RVal(_), RProd(_, _), RSeqT(_, _), RSeqB(_), RArgs(_, _)
-RLeaf == RandomElement(LeafInAll)
+RLeaf(u) == RandomElement(LeafInAll)   \* (a parameter keeps TLC from evaluating it once at start-up)
 RTyK(k, d) ==
-  CASE k = "leaf" -> RLeaf
+  CASE k = "leaf" -> RLeaf(d)
     [] k \in {"vec", "deq", "list", "flist"} -> Ty(k, 0, <<RTy(d - 1)>>)
     [] k \in SetKinds -> Ty(k, 0, <<RandomElement(KeyTypes)>>)
     [] k = "arr" -> Ty("arr", RandomElement({1, 2}), <<RTy(d - 1)>>)
-    [] k = "carray" -> Ty("carray", 2, <<RandomElement({Arith(4), Leaf("str")})>>)
     [] k = "opt" -> Ty("opt", 0, <<RTy(d - 1)>>)
     [] k \in MapKinds -> Ty(k, 0, <<RandomElement(KeyTypes), RTy(d - 1)>>)
     [] k = "pair" -> PairT(RTy(d - 1), RTy(d - 1))
     [] k = "tup" -> One({Ty("tup", 0, RSeqT(n, d - 1)) : n \in {RandomElement(1..3)}})
 RSeqT(n, d) == IF n = 0 THEN <<>> ELSE Append(RSeqT(n - 1, d), RTy(d))
-AllComp == {"vec", "deq", "list", "flist", "arr", "carray", "opt", "pair", "tup"} \cup SetKinds \cup MapKinds
-RTy(d) == IF d <= 1 THEN RLeaf
+AllComp == {"vec", "deq", "list", "flist", "arr", "opt", "pair", "tup"} \cup SetKinds \cup MapKinds
+RTy(d) == IF d <= 1 THEN RLeaf(d)
           ELSE One({RTyK(k, d) : k \in {RandomElement(AllComp \cup {"leaf"})}})
-RTopTy(d) == One({IF c = 0 THEN RandomElement(LeafTopOnly) ELSE RTy(d) : c \in {RandomElement(0..5)}})
+RTopTy(d) == One({IF c = 0 THEN RandomElement(LeafTopOnly)
+                  ELSE IF c = 1 THEN Ty("carray", 2, <<RandomElement({Arith(4), Leaf("str")})>>)
+                  ELSE IF c \in {2, 3} THEN RLeaf(d)
+                  ELSE RTy(d) : c \in {RandomElement(0..11)}})
 RVal(T) ==
   CASE T.k \in TokenKinds -> 1
     [] T.k = "cstr" -> RandomElement(CstrFull)
@@ -153,7 +167,7 @@ RSeqV(T, c) == IF c = 0 THEN <<>> ELSE Append(RSeqV(T, c - 1), RVal(T))
 RProd(Ts, i) == IF i > Len(Ts) THEN <<>> ELSE <<RVal(Ts[i])>> \o RProd(Ts, i + 1)
 RNode(d) == One({[ty |-> T, val |-> RVal(T)] : T \in {RTopTy(d)}})
 RArgs(n, d) == IF n = 0 THEN <<>> ELSE Append(RArgs(n - 1, d), RNode(d))
-RStmt == One({RArgs(n, SimDepth) : n \in {RandomElement(1..MaxArgs)}})
+RStmt(u) == One({RArgs(n, SimDepth) : n \in {RandomElement(1..MaxArgs)}})
 
 (* ------------------------------------------------------------------ helpers on byte strings *)
 RECURSIVE FirstNul(_, _, _)
@@ -334,9 +348,9 @@ SizeStep(t, args, dyn) ==
      /\ pc' = [pc EXCEPT ![t] = "sized"]
      /\ UNCHANGED <<queue, nst, ok, hist>>
 ASize(t) ==
-  /\ pc[t] = "idle" /\ nst[t] < MaxStmts
-  /\ IF Sim THEN \E args \in {RStmt} : \E dyn \in {RandomElement(DynChoices)} : SizeStep(t, args, dyn)
-     ELSE \E n \in 1..MaxArgs : \E args \in [1..n -> Pool] : \E dyn \in DynChoices : SizeStep(t, args, dyn)
+  /\ pc[t] = "idle" /\ nst[t] < MaxStmts /\ Len(queue[t]) < MaxPending
+  /\ IF Sim THEN \E args \in {RStmt(nst[t])} : \E dyn \in {RandomElement(DynChoices)} : SizeStep(t, args, dyn)
+     ELSE \E n \in 1..(IF nst[t] = 0 THEN MaxArgsFirst ELSE MaxArgs) : \E args \in [1..n -> Pool] : \E dyn \in DynChoices : SizeStep(t, args, dyn)
 
 \* second half: header, encode pass (cache consumed from index 0), dynamic level, commit
 AEncode(t) ==
@@ -383,9 +397,11 @@ DecodeRec(r) ==
 ADrain ==
   /\ \A t \in Threads : pc[t] = "idle"
   /\ \E t \in Threads : queue[t] # <<>>
-  /\ LET recs == UNION {{DecodeRec(queue[t][i]) : i \in 1..Len(queue[t])} : t \in Threads}
-     IN ok' = [ok EXCEPT !.sizes = @ /\ \A r \in recs : r.reserved = r.written /\ r.written = r.consumed /\ ~r.bad,
-                         !.snap = @ /\ \A r \in recs : r.decoded = r.atcall]
+  /\ ok' = [ok EXCEPT
+              !.sizes = @ /\ \A t \in Threads : \A i \in 1..Len(queue[t]) :
+                               LET r == DecodeRec(queue[t][i]) IN r.reserved = r.written /\ r.written = r.consumed /\ ~r.bad,
+              !.snap = @ /\ \A t \in Threads : \A i \in 1..Len(queue[t]) :
+                              LET r == DecodeRec(queue[t][i]) IN r.bad \/ r.decoded = r.atcall]
   /\ queue' = [t \in Threads |-> <<>>]
   /\ hist' = Append(hist, [op |-> "poll"])
   /\ UNCHANGED <<cache, pc, cur, nst>>
